@@ -40,7 +40,8 @@ def cases(tier, seed):
         yield {"k": "corner", "gen": gen}
         for i in range(2 if tier == "quick" else 40):
             yield {"k": "session", "gen": gen, "seed": rnd.randrange(1 << 30),
-                   "rounds": 24 if i == 0 else rnd.randint(10, 60)}
+                   "rounds": 24 if i == 0 else rnd.randint(10, 60),
+                   "prelude": i % 2 == 1, "refuse_first": i % 2 == 1 or i % 3 == 2}
     for b in range(256):
         yield {"k": "crc2", "b0": b}
     yield {"k": "crc_random", "seed": rnd.randrange(1 << 30),
@@ -552,12 +553,26 @@ def run_session(case):
 
     async def main(loop, net, log):
         w = SockWorld(gen, loop, net, log)
+        if case.get("prelude"):
+            # an earlier life of the same socket object that ended during the back-off after a
+            # refused attempt (an init() that gave up, say)
+            net.script.append(("refuse", 0.0))
+            await w.sock.open_socket()
+            await asyncio.sleep(0.7)
+            await w.sock.close()
+            await quiesce(loop)
+            obs["sessions_after_a_life_that_ended_in_the_back_off"] = 1
         await w.open()
         for i in range(case["rounds"]):
             c = net.current()
             if c is None:
                 out["fail"] = ("no-connection", i)
                 return
+            if case.get("refuse_first") and i % 3 == 0:
+                # the console is not ready at once: the first reconnection is refused
+                net.script.append(("refuse", 0.0))
+                obs["reconnections_refused_once_after_a_damaged_frame"] = obs.get(
+                    "reconnections_refused_once_after_a_damaged_frame", 0) + 1
             raw = cat[rnd.choice(kinds)]
             lo, hi = F.covered_span(gen, raw)
             bad = bytearray(raw)
